@@ -4,7 +4,7 @@
    and a body; flatten returns the header block with line ends normalised to CRLF and the body
    byte-exact.  Header (re)serialisation itself is the standard library's and is specified here
    only as the identity on well-formed blocks (InDomain). *)
-EXTENDS Bytes
+EXTENDS Bytes, SequencesExt, FiniteSetsExt
 
 (* first index e such that data[s] = LF, data[e] = LF, s < e, data[s+1..e-1] all white space, s minimal *)
 RECURSIVE WsRunToLF(_, _)
@@ -35,6 +35,22 @@ NormEOLFrom(d, i) ==
   ELSE IF d[i] = LF THEN <<CR, LF>> \o NormEOLFrom(d, i + 1)
   ELSE <<d[i]>> \o NormEOLFrom(d, i + 1)
 NormEOL(d) == NormEOLFrom(d, 1)
+(* The same operators without recursion, for header blocks of tens of kilobytes: TLC's cost of a recursive operator grows with
+   the square of the recursion depth (measured: 10 000 levels 5 s, 70 000 bytes of header block 225 s), set comprehensions and the
+   library folds are linear.  MC_EnvelopeCodec proves the flat operators equal to the recursive ones on every string to its bound;
+   the trace specification evaluates the flat ones. *)
+LFPos(d) == SetToSortSeq({i \in 1..Len(d) : d[i] = LF}, <)
+BoundaryEndFlat(d) == LET P == LFPos(d)
+                          K == {k \in 1..(Len(P) - 1) : \A m \in (P[k] + 1)..(P[k + 1] - 1) : IsWs(d[m])}
+                      IN IF K = {} THEN 0 ELSE P[Min(K) + 1]
+LineStart(P, k) == IF k = 1 THEN 1 ELSE P[k - 1] + 1
+SplitLinesFlat(d) == LET P == LFPos(d) IN [k \in 1..Len(P) |-> LineContent(d, LineStart(P, k), P[k])]
+NormEOLByLine(d) == LET P == LFPos(d)
+                        n == Len(P)
+                        body == FoldLeft(LAMBDA acc, k : acc \o LineContent(d, LineStart(P, k), P[k]) \o <<CR, LF>>, <<>>, [k \in 1..n |-> k])
+                    IN body \o SubSeq(d, (IF n = 0 THEN 1 ELSE P[n] + 1), Len(d))
+HeaderBlockFlat(d) == IF BoundaryEndFlat(d) = 0 THEN d ELSE Take(d, BoundaryEndFlat(d))
+BodyFlat(d) == IF BoundaryEndFlat(d) = 0 THEN <<>> ELSE Drop(d, BoundaryEndFlat(d))
 
 (* the statement's domain: >= 1 well-formed field, folded lines allowed, every line <= 78 bytes,
    values/continuations without leading or trailing white space, no white-space-only lines, no
@@ -52,4 +68,5 @@ HeaderLinesOk(ls) == /\ Len(ls) >= 2 /\ ls[Len(ls)] = <<>> /\ FieldLine(ls[1])
                      /\ \A k \in 1..(Len(ls) - 1) : Len(ls[k]) <= 78 /\ (FieldLine(ls[k]) \/ ContLine(ls[k]))
 InDomain(d) == LET hb == HeaderBlock(d) IN
                /\ BoundaryEnd(d) # 0 /\ HeaderLinesOk(SplitLines(hb))
+InDomainFlat(d) == LET e == BoundaryEndFlat(d) IN e # 0 /\ HeaderLinesOk(SplitLinesFlat(Take(d, e)))
 =============================================================================
